@@ -83,6 +83,17 @@ def adapt_input(P, x, how):
   return x
 
 
+class _HubPeekEnd(object):
+  """ Endpoint that is a StreamTeeHub object: only peek() makes sense. """
+  __slots__ = ("hub",)
+
+  def __init__(self, hub):
+    self.hub = hub
+
+  def peek(self, k):
+    return self.hub.peek(k)
+
+
 class _IterableOnly(object):
   __slots__ = ("inner",)
 
@@ -240,6 +251,7 @@ class C02(Property):
           tails.append(None)
           ends.append([typ, exact])
     wl = {"srcs": srcs, "base": base, "fan": fan, "tails": tails,
+          "hub_spare": fan == "thub" and W.chance("hub-spare", 1, 3),
           # the same pipeline built twice over separate sources: state
           # kept outside the stage objects (caches, module globals) shows
           "twin": W.chance("twin", 1, 5)}
@@ -526,6 +538,8 @@ class C02(Property):
       k = 1 if op == "next" else 1 + S.choose("k", 10)
       if op != "next" and wl.get("deep"):
         k *= wl["deep"]
+      if isinstance(real_ends[e], _HubPeekEnd):
+        op = "peek"
       info["demand"].append((e, op, k))
       # the reference pipeline moves first: it defines the read budget
       M.refuel()
@@ -679,8 +693,15 @@ class C02(Property):
         reals = list(P.lit.tee(real_out if isinstance(real_out, Stream)
                                else Stream(real_out), n))
       else:
-        hub = P.ls.thub(real_out, n)
+        spare = 1 if wl.get("hub_spare") else 0
+        hub = P.ls.thub(real_out, n + spare)
         reals = [Stream(hub) for _ in range(n)]
+        if spare:
+          # one use is left in the hub: the hub object itself can be peeked
+          # (again and again, with growing sizes) without spending it
+          reals.append(_HubPeekEnd(hub))
+          models.append(tee.branch())
+          tails = list(tails) + [None]
     out_r, out_m = [], []
     for r, m, t in zip(reals, models, tails):
       if t is not None:
